@@ -338,6 +338,27 @@ def kani_playback(scr, crate, harness_name):
     return "\n".join(outb[:4]) if outb else None
 
 
+def run_native(scr, crate, names):
+    """run #[test] functions of an overlaid harness module natively (outside the verifier) through
+    `cargo kani playback` (which only supplies cfg(kani) and the kani crate); returns name -> (passed, output tail)"""
+    scr.ensure_kani_target()
+    out = {}
+    for n in names:
+        cmd = ["cargo", "kani", "playback", "-Z", "concrete-playback", "-p", crate, "--lib", "--", n]
+        try:
+            p = subprocess.run(cmd, cwd=scr.rust, env=dict(ENV, CARGO_TARGET_DIR=scr.target), stdout=subprocess.PIPE,
+                               stderr=subprocess.STDOUT, text=True, timeout=1800)
+        except subprocess.TimeoutExpired:
+            out[n] = (None, "time-out")
+            continue
+        m = re.search(r"test result: (\w+)\. (\d+) passed; (\d+) failed", p.stdout)
+        if not m or (int(m.group(2)) + int(m.group(3)) == 0):
+            out[n] = (None, _tail(p.stdout, 30))
+        else:
+            out[n] = (m.group(1) == "ok", _tail(p.stdout, 40))
+    return out
+
+
 def _tail(s, n):
     return "\n".join(s.splitlines()[-n:])
 
@@ -408,12 +429,13 @@ class _LoggedFn:
             return a
 
         def w(*args, **kw):
+            rule_kw = kw.pop("rule", None)
             try:
                 r = a(*args, **kw)
             except rsx.RsxError as e:
                 raise Undecided("extractor: %s: %s(%s): %s" % (self.f.origin, k, ", ".join(repr(z)[:50] for z in args), e))
             if k in ("rewrite", "strip_macro_stmts", "strip_cfg_blocks", "desugar_for"):
-                rule = {"strip_macro_stmts": "R7", "strip_cfg_blocks": "R8", "desugar_for": "R9"}.get(k, kw.get("rule", "rewrite"))
+                rule = {"strip_macro_stmts": "R7", "strip_cfg_blocks": "R8", "desugar_for": "R9"}.get(k, rule_kw or "rewrite")
                 self.x.note(rule, "%s: %s%r fired %s" % (self.f.origin, k, tuple(str(z)[:60] for z in args), r))
             return r
         return w
